@@ -670,6 +670,16 @@ func genC02(tier string, rng *rand.Rand, shard, nshards int, emit emitter) {
 						for _, e := range respEntries(fr, fc) {
 							emit(parseOp(e, d, poison(rng)))
 						}
+						if delta == 0 && bc%8 == 5 {
+							// the well-formed response with the error bit set in its function byte: whatever it looks
+							// like, it is not a response
+							epdu := append([]byte{}, pdu...)
+							epdu[0] |= 0x80
+							ed := frameOf(rng, fr, epdu)
+							for _, e := range respEntries(fr, fc) {
+								emit(parseOp(e, ed, poison(rng)))
+							}
+						}
 						if delta == 0 && bc%8 == 3 {
 							// the well-formed frame followed by more bytes, its header untouched: longer than its fields say
 							long := append(append([]byte{}, d...), rbytes(rng, 1+rng.Intn(4))...)
@@ -856,6 +866,12 @@ func genC03(tier string, rng *rand.Rand, shard, nshards int, emit emitter) {
 	}
 	frames = append(frames, withCRC([]byte{byte(u8(rng)), byte(rng.Intn(128)), byte(u8(rng))}), withCRC([]byte{1, 0x83, 2}))
 	ents = append(ents, "aserrRC", "aserrRC")
+	for _, fb := range []byte{0x80, 0x81, 0xFF, 0x7F, 0x00} {
+		frames = append(frames, withCRC([]byte{byte(u8(rng)), fb, byte(u8(rng))}))
+		ents = append(ents, "aserrRC")
+		frames = append(frames, withCRC([]byte{byte(u8(rng)), fb, byte(u8(rng))}))
+		ents = append(ents, "respRC")
+	}
 	for fi, f := range frames {
 		emitT := func(t int) {
 			d := append([]byte{}, f...)
@@ -1001,6 +1017,12 @@ func genC11(tier string, rng *rand.Rand, shard, nshards int, emit emitter) {
 		if rng.Intn(3) == 0 {
 			trunc = 1 + rng.Intn(24)
 		}
+		if j%25 == 0 && base < 63000 {
+			// a request over (nearly) the whole 2000 coils one reply can carry: a payload of 249 / 250 bytes
+			fs = append(fs, fmt.Sprintf("w%d,a:502,1,%d,14,0,0,0,0", j, base+1985+rng.Intn(15)))
+			fs = append(fs, fmt.Sprintf("v%d,a:502,1,%d,14,0,0,0,0", j, base))
+			trunc = -1
+		}
 		emit(fmt.Sprintf("extract %d %d %d %d %s", rng.Intn(4), rng.Intn(2), trunc, rng.Intn(100000), strings.Join(fs, ";")))
 	}
 	// the same packing as it goes out on the wire in a write-multiple-coils request (both framings)
@@ -1022,6 +1044,14 @@ func genC11(tier string, rng *rand.Rand, shard, nshards int, emit emitter) {
 // ---------- C18 ----------
 
 func genC18(tier string, rng *rand.Rand, shard, nshards int, emit emitter) {
+	// a frame is dispatched when ITS bytes are there: another connection in the middle of a frame has no part in it
+	for c, cfg := range []string{"00000", "00100", "01010", "11110"} {
+		if c%nshards == shard {
+			for _, t := range srvTemplatesC15 {
+				emit("srv " + cfg + " " + t)
+			}
+		}
+	}
 	// the consumer of the classifier: a frame is dispatched only once the announced number of bytes is there
 	genC15("sample", rng, shard, nshards, emit)
 	genNewreqP(rng, shard, nshards, emit)
@@ -1063,6 +1093,9 @@ func genC18(tier string, rng *rand.Rand, shard, nshards int, emit emitter) {
 			protos := []int{0}
 			if lf < 12 || fc < 3 {
 				protos = []int{0, 1, 256}
+			}
+			if lf >= 3 && lf <= 8 && fc <= 24 {
+				protos = append(protos, 0x01FF, 0x8080, 0xFF01, 0x00FF, 0xFF00)
 			}
 			for _, p := range protos {
 				tid := tidv(rng)
